@@ -274,7 +274,12 @@ func (c *rejectTrafficShapingController) PerformChecking(arg interface{}, batchC
 		if lastAddTokenTimePtr == nil {
 			// First to fill token, and consume token immediately
 			leftCount := maxCount - batchCount
-			tokenCounter.AddIfAbsent(arg, &leftCount)
+			if tokenCounter.AddIfAbsent(arg, &leftCount) != nil {
+				// Another caller, who found this value's refill time but no tokens yet, has started the
+				// value over in between (see below): the tokens of this request come out of that
+				// counter - passing here would hand them out for free.
+				continue
+			}
 			return nil
 		}
 
